@@ -359,6 +359,8 @@ Pairs11 ==
            << <<Src11, Mk2("$output", False, "$replace", Ref11("svc"))>>, <<Src11, Mk2("$output", True, "port", I("80"))>> >>,
            << <<Mk2("$output", False, "$replace", Ref11("plain")), Src11>>, <<Single("x", I("1")), Src11>> >> }
 CasesC11dyn == {Case(p[1], NoEnv, "dynamic") : p \in Pairs11}
+(* the fixed order of outputs is the byte order of the keys: h10 comes before h2 *)
+KeyOrder11 == M([k \in {"h10", "h2", "h9", "H3", "h", "h02"} |-> Mk2("$output", True, "id", S(k))])
 (* a list's marker entry is an entry like any other for the layer above: it can be deleted, or matched and flipped *)
 MarkedList(mk) == Mk2("name", S("svc"), "l", ListMark(<<I("1"), I("2")>>, mk))
 CasesC11layer ==
@@ -374,7 +376,7 @@ CasesC11layer ==
         CaseX(<<MarkedList("f"), Single("l", L(<<Single("$output", False), I("3")>>))>>, NoEnv, "markerlayer", <<Single("name", S("svc"))>>)}
 
 CasesC11(lazy) ==
-  CasesC11b(0) \cup {Case(<<Wide11>>, NoEnv, "wide")} \cup CasesC11dyn \cup CasesC11layer \cup
+  CasesC11b(0) \cup {Case(<<Wide11>>, NoEnv, "wide")} \cup CasesC11dyn \cup CasesC11layer \cup {Case(<<KeyOrder11>>, NoEnv, "keyorder")} \cup
   {Case(<<Shape11(r, a, b, cl)>>, NoEnv, "marks") : r \in MarkSet, a \in MarkSet, b \in MarkSet, cl \in MarkSet}
   \cup {Case(<<Shape11(r, a, "n", "n"), Shape11("n", "n", b, cl)>>, NoEnv, "stream") : r \in MarkSet, a \in MarkSet, b \in MarkSet, cl \in MarkSet}
   \cup {Case(<<L(<<Single("$output", True), Single("w", Mk2("$output", True, "p", I("1"))), L(<<Single("$output", mk), I("2")>>)>>)>>, NoEnv, "lists") : mk \in {True, False}}
@@ -384,6 +386,8 @@ LawC11(cs) ==
   CASE cs.tag = "dynamic" ->
          \E p \in Pairs11 : cs.docs = p[1] /\
             LET a == EvalS(p[1], NoEnv)  b == EvalS(p[2], NoEnv) IN a.ok /\ b.ok /\ a.v = b.v /\ Len(a.v) >= 2
+    [] cs.tag = "keyorder" ->
+         EvalS(cs.docs, NoEnv) = Ok([i \in 1..6 |-> Single("id", S(<<"H3", "h", "h02", "h10", "h2", "h9">>[i]))])
     [] cs.tag = "markerlayer" ->
          LET m == Merge(cs.docs[1], cs.docs[2]) IN m.ok /\ Eval1(m.v) = Ok(cs.aux)
     [] cs.tag \in {"marks", "stream", "lists"} ->
@@ -518,6 +522,9 @@ CasesC13(lazy) ==
   {CaseX(<<Doc13("$\"" \o l1 \o "\"")>>, Env13, "lit", l1) : l1 \in Lits}
   (* the two-character string $" : its opening and closing quote are the same character; the empty template *)
   \cup {CaseX(<<Doc13("$\"")>>, Env13, "lit", "")}
+  (* what a placeholder substitutes is final: text that looks like a later placeholder is not replaced again *)
+  \cup {CaseX(<<Mk3("a", S("{b}"), "b", S("x"), "t", S(tm[1]))>>, Env13, "rescan", tm[2])
+          : tm \in { <<"$\"{a}-{b}\"", "{b}-x">>, <<"$\"{b}-{a}\"", "x-{b}">>, <<"$\"{a}{a}{b}\"", "{b}{b}x">> }}
   (* a reference to a document key whose name starts with "$" (written escaped) is a path like any other *)
   \cup {CaseX(<<Mk3("$$tag", S("v1"), "n", I("5"), "t", S("$\"app-{$$tag}-{n}\""))>>, Env13, "dollarkey", Mk3("$tag", S("v1"), "n", I("5"), "t", S("app-v1-5")))}
   \cup {CaseX(<<Doc13(Tmpl1(l1, r, l2))>>, Env13, "one", <<l1, r, l2>>) : l1 \in Lits, r \in Refs13, l2 \in Lits}
@@ -562,6 +569,7 @@ LawC13(cs) ==
          ELSE r.ok /\ IsStr(At(r.v[1], "t")) /\ Has(r.v[1], "val") /\ ~Has(r.v[1], "$env:V")
     [] cs.tag = "nested" -> r = Ok(<<Mk3("a", S("<5>"), "b", S("<5>"), "n", I("5"))>>)
     [] cs.tag = "dollarkey" -> r = Ok(<<cs.aux>>)
+    [] cs.tag = "rescan" -> r.ok /\ At(r.v[1], "t") = S(cs.aux)
     [] cs.tag = "indirect" ->
          LET k == cs.aux[1]  v == cs.aux[2] IN
          IF v = "UNSET" THEN ~r.ok
@@ -691,7 +699,7 @@ LawC08(cs) ==
 (* harness replays each vector). A pair is part of the family of either       *)
 (* feature.                                                                   *)
 PairCtx == Mk2("src", Mk2("p", I("1"), "q", L(<<I("1"), I("2")>>)), "n", I("5"))
-Frags == {"strayrepeat", "mergestr", "mergemap", "replacemap", "listmerge", "repeatlist", "repeatmap", "outtrue", "outfalse",
+Frags == {"nlmarker", "strayrepeat", "mergestr", "mergemap", "replacemap", "listmerge", "repeatlist", "repeatmap", "outtrue", "outfalse",
           "encode", "enclist", "interp", "required", "value", "escaped", "delete", "plainmap", "plainlist"}
 Frag(f) ==
   CASE f = "mergestr" -> S("$merge:src")
@@ -710,6 +718,7 @@ Frag(f) ==
     [] f = "escaped" -> S("$$lit")
     [] f = "delete" -> S("$delete")
     [] f = "strayrepeat" -> S("$\"n{$repeat}\"")      \* a repeat variable outside every repeat: an error wherever it stands
+    [] f = "nlmarker" -> S("$required\nmore")           \* a marker text is one whatever follows it, a line break included
     [] f = "plainmap" -> Mk2("p", I("7"), "r", I("8"))
     [] f = "plainlist" -> L(<<I("7")>>)
 FamilyOf(f) ==
